@@ -149,6 +149,35 @@ var rR26 = RuleRef{Name: "R26", Doc: "no aliasing between keys: a container stor
 				k := canon(a.Key)
 				ok2 := c.freshValue(val, 0, map[ssa.Value]bool{})
 				why := "stored container is not provably fresh"
+				pv := val
+				if mi, isMI := pv.(*ssa.MakeInterface); isMI {
+					pv = mi.X
+				}
+				if prm, isP := pv.(*ssa.Parameter); isP && !ok2 {
+					// a helper that stores what it is given: every caller must hand it a fresh container
+					all, any := true, false
+					for _, g := range c.P.allFuncs("memdb") {
+						for _, bb := range g.Blocks {
+							for _, ii := range bb.Instrs {
+								if cc, isC := ii.(*ssa.Call); isC && callee(cc) == fn {
+									for pi, fp := range fn.Params {
+										if fp == prm && pi < len(cc.Call.Args) {
+											any = true
+											if !c.freshValue(cc.Call.Args[pi], 0, map[ssa.Value]bool{}) {
+												all = false
+											}
+										}
+									}
+								}
+							}
+						}
+					}
+					if all && any {
+						ok2 = true
+					} else {
+						why = "a caller passes a container that is not provably fresh to this storing helper"
+					}
+				}
 				if !ok2 {
 					src, unknownOrigin := c.getOrigins(val)
 					if unknownOrigin {
